@@ -176,11 +176,12 @@ def linear2(ctx, f, g, a, b, n, hint="S"):
     return comb, sf, sg
 
 
-def scale(ctx, f, a, n, hint="S"):
+def scale(ctx, f, a, n, hint="S", forall=()):
+    """Σ a f = a Σ f;  forall: outer z3 Int variables occurring in f over which the instance is generalised"""
     at, nt = to_real(to_term(a)), to_term(n)
     sf = make(f, nt, hint)
     sc = make(lambda t: at * to_real(to_term(f(t))), nt, hint + "s")
-    ctx.assume(z3.Implies(nt >= 0, sc.t == at * sf.t), "lemma:scale")
+    ctx.assume(_gen(forall, z3.Implies(nt >= 0, sc.t == at * sf.t), [sc.t] if forall else None), "lemma:scale")
     return sc, sf
 
 
